@@ -117,3 +117,12 @@ func bitsTag(o *model.PushPullPackOption) string {
 	}
 	return s
 }
+
+func (w *vfWorld) lockFreeName(name string) bool {
+	l := w.mgr.GetLock(context.NewOrdaContext(gocontext.TODO(), "vf"), name)
+	ok := l.TryLock()
+	if ok {
+		l.Unlock()
+	}
+	return ok
+}
